@@ -156,6 +156,12 @@ name_ = st.one_of(st.none(), st.binary(max_size=40), st.binary(max_size=255),
                   st.just(b"urn:nfc:sn:snep"), st.just(b""))
 
 
+# service names in SDREQ: a TLV value holds the TID and up to 254 name bytes
+sdreq_name_ = st.one_of(
+    st.binary(max_size=60), st.binary(max_size=60),
+    st.integers(250, 254).flatmap(lambda n: st.binary(min_size=n, max_size=n)))
+
+
 def fixed(t, **kw):
     return st.fixed_dictionaries(dict(type=st.just(t), **kw))
 
@@ -176,8 +182,7 @@ def simple_pdu(maxpay=2175):
         fixed("DM", reason=byte, **any_sap),
         fixed("FRMR", flags=nib, ptype=nib, ns=nib, nr=nib, vs=nib, vr=nib,
               vsa=nib, vra=nib, **any_sap),
-        fixed("SNL", sdreq=st.lists(st.tuples(byte, st.binary(max_size=60)),
-                                    max_size=6),
+        fixed("SNL", sdreq=st.lists(st.tuples(byte, sdreq_name_), max_size=6),
               sdres=st.lists(st.tuples(byte, st.integers(0, 63)),
                              max_size=12), **one),
         fixed("DPS", ecpk=opt_(st.binary(max_size=64)),
@@ -389,6 +394,20 @@ def agf_overrun(draw):
 
 
 @st.composite
+def reserved_bits(draw):
+    """parameter PDUs whose MIUX / RW / OPT values have reserved bits set"""
+    head = draw(st.sampled_from([b"\x00\x40", b"\x11\x20", b"\x41\x90"]))
+    tlvs = b""
+    for _ in range(draw(st.integers(1, 3))):
+        t = draw(st.sampled_from([2, 5, 7]))
+        if t == 2:
+            tlvs += b"\x02\x02" + struct.pack(">H", draw(st.integers(0, 65535)))
+        else:
+            tlvs += bytes([t, 1, draw(st.integers(0, 255))])
+    return head + tlvs
+
+
+@st.composite
 def nested_agf(draw):
     depth = draw(st.one_of(st.integers(1, 8), st.integers(1, 540)))
     inner = draw(st.sampled_from([b"\x00\x00", b"\x0c\xc1", b"\x00\x80",
@@ -401,7 +420,7 @@ def nested_agf(draw):
 
 def gen_bytes(tier):
     return st.one_of(mutated(), mutated(), agf_construct(), agf_construct(),
-                     agf_overrun(), nested_agf(), st.binary(max_size=64),
+                     agf_overrun(), nested_agf(), reserved_bits(), st.binary(max_size=64),
                      st.binary(max_size=2200))
 
 
